@@ -38,8 +38,12 @@ func (endpoint *PairVerify) ServeHTTP(response http.ResponseWriter, request *htt
 	log.Debug.Printf("%v POST /pair-verify", request.RemoteAddr)
 	response.Header().Set("Content-Type", hap.HTTPContentTypePairingTLV8)
 
-	key := endpoint.context.GetConnectionKey(request)
-	session := endpoint.context.Get(key).(hap.Session)
+	session := endpoint.context.GetSessionForRequest(request)
+	if session == nil {
+		// the connection of this request was closed or replaced in the meantime
+		response.WriteHeader(http.StatusInternalServerError)
+		return
+	}
 	ctlr := session.PairVerifyHandler()
 	if ctlr == nil {
 		log.Debug.Println("Create new pair verify controller")
